@@ -152,7 +152,9 @@ class Builder:
 
     def draw(self, prof, integer=False, pos=0):
         sp = self.specials
-        if sp and (pos == 0 or self.rng.random() < 0.4):
+        # position 0 is always special, position 1 never (so that a container is never all-special:
+        # what the first element does to the others is the point), the others often
+        if sp and (pos == 0 or (pos != 1 and self.rng.random() < 0.4)):
             cand = [v for v in sp if not integer or float(v).is_integer()]
             if cand:
                 return float(self.rng.choice(cand))
@@ -209,7 +211,8 @@ class Builder:
                   "cs": [bits(v) for v in vs], "int": integer}
             if self.specials and kind == "listFloat":
                 # a list MIXING Python ints and floats (what a user types: [0, 30, 45.5])
-                lf["ints"] = [bool(float(v).is_integer() and rng.random() < 0.6) for v in vs]
+                lf["ints"] = [bool(float(v).is_integer() and rng.random() < (0.8 if k == 0 else 0.5))
+                              for k, v in enumerate(vs)]
             return ["leaf", self._push(lf)]
         if kind == "repeatedQuantity":
             # ONE measurement recorded from readings; deliberately as many readings as the array has
